@@ -210,7 +210,8 @@ class SetMembersMixin:
                         # Accessing attributes of the value or member can trigger alias errors.
                         # Accessing file paths can trigger a builtin module error.
                         with suppress(AliasResolutionError, CyclicAliasError, BuiltinModuleError):
-                            if value.is_module and value.filepath != member.filepath:
+                            # (A namespace package, with its several directories, is never a stubs module.)
+                            if value.is_module and value.filepath != member.filepath and not isinstance(value.filepath, list):
                                 with suppress(ValueError):
                                     value = merge_stubs(member, value)  # type: ignore[arg-type]
                     aliases_to_update = list(member.aliases.values())
